@@ -229,7 +229,17 @@ def _is_container_box(o):
     return isinstance(v, (tuple, list, dict))
 
 
-def _same_space(gvs, xs):
+def _default_precision(vs):
+    """Every leaf space is float64 / complex128 (Python scalars included)."""
+    sh = getattr(vs, "shape", None)
+    if isinstance(sh, dict):
+        return all(_default_precision(v) for v in sh.values())
+    if isinstance(sh, (tuple, list)) and not all(isinstance(d, int) for d in sh):
+        return all(_default_precision(v) for v in sh)
+    return getattr(vs, "dtype", None) in (onp.dtype("float64"), onp.dtype("complex128"))
+
+
+def _same_space(gvs, xs, strict_dtype=True):
     """vspace equality as C05 states it: same structure and shape, real for real / complex for complex, and the same dtype
     for default-precision arguments (float64 / complex128 / Python scalars); reduced-precision arguments only fix the kind."""
     if gvs == xs:
@@ -241,14 +251,14 @@ def _same_space(gvs, xs):
         # container spaces: compare leaf-wise
         try:
             if isinstance(xsh, dict):
-                return isinstance(gs, dict) and list(gs) == list(xsh) and all(_same_space(gs[k], xsh[k]) for k in xsh)
-            return len(gs) == len(xsh) and all(_same_space(a, b) for a, b in zip(gs, xsh))
+                return isinstance(gs, dict) and list(gs) == list(xsh) and all(_same_space(gs[k], xsh[k], strict_dtype) for k in xsh)
+            return len(gs) == len(xsh) and all(_same_space(a, b, strict_dtype) for a, b in zip(gs, xsh))
         except Exception:
             return False
     xd, gd = getattr(xs, "dtype", None), getattr(gvs, "dtype", None)
     if xd is None or gd is None or gs != xsh:
         return False
-    if xd in (onp.dtype("float64"), onp.dtype("complex128")):
+    if strict_dtype and xd in (onp.dtype("float64"), onp.dtype("complex128")):
         return gd == xd
     return gd.kind == xd.kind
 
@@ -335,7 +345,8 @@ def _forward(A, f_ag, argnum, call_args, x):
                 r["box_in_result"] = True
             try:
                 tvs, vvs = A["vspace"](t), A["vspace"](val)
-                if not _same_space(tvs, vvs) and struct_bad is None:
+                # the dtype clause is stated for default-precision ARGUMENTS: a float32 argument may carry a float32 tangent
+                if not _same_space(tvs, vvs, strict_dtype=_default_precision(xs)) and struct_bad is None:
                     struct_bad = (repr(tvs)[:200], repr(vvs)[:200])
             except Exception as e:
                 struct_bad = struct_bad or ("no vspace: %s" % type(e).__name__, "")
